@@ -466,7 +466,25 @@ def run_history(case):
     cb.__name__ = 'cb%d' % j
     return cb
 
-  t.add_output_callbacks(*[make_cb(j) for j in range(case['ncb'])])
+  import functools
+
+  class CallableObject:
+    # like openhtf's own callbacks: an object with __call__, no __name__
+    def __init__(self, fn):
+      self.fn = fn
+
+    def __call__(self, rec):
+      return self.fn(rec)
+
+  def shape(j, fn):
+    kind = (j + len(case['raising'])) % 3
+    if kind == 1:
+      return CallableObject(fn)
+    if kind == 2:
+      return functools.partial(lambda extra, rec, _fn=fn: _fn(rec), 'x')
+    return fn
+
+  t.add_output_callbacks(*[shape(j, make_cb(j)) for j in range(case['ncb'])])
   conf = {}
   if cfg.get('sof') == 'conf':
     conf['stop_on_first_failure'] = True
